@@ -43,7 +43,7 @@ STUB = ["choice of the running worker thread (baton scheduler, line events in mo
 ASSUMPTIONS = ["the eval'd equation lambdas and numpy/pandas run atomically between two pre-emption points",
                "double evaluation of an equation is allowed; a second VALUE for one (element, time) is not"]
 FAULT_KINDS = ["preemption"]
-PROBES = ["agent_callback_reads_elements_during_a_reset", "element_of_an_arrayed_constant_edited", "edits_on_a_registered_scenario_model", "first_equation_after_dependants_were_read", "failed_modelling_call", "scenario_constant_then_scenario_reset", "long_stochastic_run", "edit_landed_inside_a_run", "stochastic_scenario_run_repeatedly", "read_via_memoize", "read_via_call", "read_via_plot", "decimal_dt_race", "edit_after_dependant_read", "initial_value_edit", "preempted_between_check_and_store", "fresh_called_twice_for_one_time",
+PROBES = ["plot_with_a_step_of_its_own", "agent_callback_reads_elements_during_a_reset", "element_of_an_arrayed_constant_edited", "edits_on_a_registered_scenario_model", "first_equation_after_dependants_were_read", "failed_modelling_call", "scenario_constant_then_scenario_reset", "long_stochastic_run", "edit_landed_inside_a_run", "stochastic_scenario_run_repeatedly", "read_via_memoize", "read_via_call", "read_via_plot", "decimal_dt_race", "edit_after_dependant_read", "initial_value_edit", "preempted_between_check_and_store", "fresh_called_twice_for_one_time",
           "run_repeated", "scenario_reset_cache"]
 EXHAUSTIVE = {"quick": False, "thorough": False}
 
@@ -196,6 +196,10 @@ def generate(spec):
             ops.append({"op": "set_vector_element", "idx": rng.choice([0, 1]), "value": rng.choice([0.0, 0.5, 3.0, 10.0, -2.0])})
         elif r < 0.72:
             ops.append({"op": "evaluate", "elem": rng.choice(ELEMS), "t_index": rng.randrange(0, 7)})
+            if rng.random() < 0.3:
+                # (when the history reads through Element.plot) a plot with a step of its own: looking at an element on another
+                # grid is an observation, not an edit
+                ops[-1]["plot_dt"] = rng.choice([x for x in (2.0, 0.5, 0.25, 0.1) if x != dt])
         elif r < 0.83:
             ops.append({"op": "run", "equations": rng.sample(ELEMS, rng.randint(1, 4))})
         elif r < 0.90:
@@ -583,7 +587,10 @@ def _execute_edit(case):
             last_edit[0] = op
         elif kind == "evaluate":
             t = grid[op["t_index"] % len(grid)]
-            if via == "plot":
+            if via == "plot" and op.get("plot_dt"):
+                res.probe("plot_with_a_step_of_its_own")
+                elem(live, op["elem"]).plot(dt=op["plot_dt"], return_df=True)
+            elif via == "plot":
                 elem(live, op["elem"]).plot(return_df=True)
             else:
                 read(live, op["elem"], t)
